@@ -33,7 +33,6 @@ pub struct MeanAbsoluteDeviation {
     period: usize,
     index: usize,
     count: usize,
-    sum: f64,
     deque: Box<[f64]>,
 }
 
@@ -45,7 +44,6 @@ impl MeanAbsoluteDeviation {
                 period,
                 index: 0,
                 count: 0,
-                sum: 0.0,
                 deque: vec![0.0; period].into_boxed_slice(),
             }),
         }
@@ -62,12 +60,9 @@ impl Next<f64> for MeanAbsoluteDeviation {
     type Output = f64;
 
     fn next(&mut self, input: f64) -> Self::Output {
-        self.sum = if self.count < self.period {
+        if self.count < self.period {
             self.count = self.count + 1;
-            self.sum + input
-        } else {
-            self.sum + input - self.deque[self.index]
-        };
+        }
 
         self.deque[self.index] = input;
         self.index = if self.index + 1 < self.period {
@@ -76,10 +71,19 @@ impl Next<f64> for MeanAbsoluteDeviation {
             0
         };
 
-        let mean = self.sum / self.count as f64;
+        // The mean is taken from the window itself, relative to its first
+        // element: a running sum keeps rounding residue of values that already
+        // left the window, and a constant window must have deviation exactly 0.
+        let window = &self.deque[..self.count];
+        let base = window[0];
+        let mut offset = 0.0;
+        for value in window {
+            offset += value - base;
+        }
+        let mean = base + offset / self.count as f64;
 
         let mut mad = 0.0;
-        for value in &self.deque[..self.count] {
+        for value in window {
             mad += (value - mean).abs();
         }
         mad / self.count as f64
@@ -98,7 +102,6 @@ impl Reset for MeanAbsoluteDeviation {
     fn reset(&mut self) {
         self.index = 0;
         self.count = 0;
-        self.sum = 0.0;
         for i in 0..self.period {
             self.deque[i] = 0.0;
         }
